@@ -142,6 +142,18 @@ CLAIMED = {
                      "unchanged; natively the fault is the signal that kills the worker. ax must fail exactly when the CPU faults and must never crash.",
                 design_ref="DESIGN.md §3 C06", note="Trusted: TLC; iced-x86's encoder and operand metadata (the instruction descriptor handed to the spec is written by the generator from iced's Instruction, never decoded by ax) - cross-checked by executing the same bytes natively; this machine's CPU as the hardware reference. Conformance is by testing: every form x shape is covered, values are sampled (boundary-biased + class-specific boundaries). A case on which specification and CPU disagree is excluded from judgement and counted in the evidence; FS-relative operands are judged by the specification alone. AF is not judged for ax where the architecture defines it.",
                 technique="TLA+ fault predicates model-checked against ground truth; TLC trace validation of ax and native-CPU outcomes"),
+    "C17": dict(category="model_checking",
+                text="StackInit.tla states the System V entry frame relationally as the guest observes it (alignment, pop sequence argc/argv/NULL/envp/"
+                     "NULL, NUL-terminated copies in order, frame and strings mapped writable, mutually disjoint and clear of pre-existing areas, space "
+                     "below RSP = requested size up to padding). TLC enumerates configurations (argc, envc, string lengths, requested sizes, image) and "
+                     "checks that a reference layout satisfies the post-condition and that mutated frames are rejected. Every model configuration and "
+                     "seeded random ones (lists longer than the stack size, empty/long strings, images and small areas on the first candidate addresses) "
+                     "run on the real Axecutor: init_stack_program_start, then real `pop rax` instructions pop the whole frame and the strings are read; "
+                     "TLC validates the gathered outcome against the post-condition.",
+                design_ref="DESIGN.md §3 C17",
+                note="The guest pops through ax's own POP (slot convention: see C04); the frame range judged for mapping/disjointness covers both conventions. "
+                     "Padding allowance 48 bytes. init_stack (without arguments) is exercised by C10/C11 scenarios only.",
+                technique="TLA+ relational post-condition + TLC configuration enumeration; TLC validation of outcomes observed through guest POPs"),
 }
 NOT_YET = {}
 
